@@ -15,6 +15,7 @@ import (
 
 	"github.com/Shopify/sarama"
 	"verif/harness/hlib"
+	"verif/harness/life"
 )
 
 type Scenario struct {
@@ -62,6 +63,8 @@ type Result struct {
 	Errors   []string
 	Logs     map[int32]int
 	StoreEnd map[int32]int64
+	Life      []string // lifecycle hook events (C12 only)
+	LifePanic []string // panics recovered in sarama's own goroutines (C12 only)
 }
 
 var codes = []sarama.KError{sarama.ErrRebalanceInProgress, sarama.ErrUnknownMemberId, sarama.ErrIllegalGeneration,
@@ -279,6 +282,13 @@ func Run(sc *Scenario) *Result {
 		res.NewErr = "config: " + err.Error()
 		return res
 	}
+	if rec := life.Begin(fmt.Sprintf("gs:%d", sc.Seed)); rec != nil {
+		sarama.VerifSinkKV = rec.Event
+		defer func() {
+			res.Life, res.LifePanic = rec.End()
+			sarama.VerifSinkKV = nil
+		}()
+	}
 	g, err := sarama.NewConsumerGroup(sim.Addrs(), "g", cfg)
 	if err != nil {
 		res.NewErr = err.Error()
@@ -396,6 +406,9 @@ func Check(res *Result) []Fail {
 	}
 	if res.Panic != "" {
 		add("C12:group-panic", "%s", res.Panic)
+	}
+	if len(res.LifePanic) > 0 {
+		add("C12:group-goroutine-panic", "recovered in one of sarama's goroutines: %s", strings.Join(res.LifePanic, " | "))
 	}
 	// merge handler events and coordinator requests into one sequence
 	type item struct {
